@@ -266,9 +266,10 @@ class CFG:
         for i in sorted(d):
             b = self.nodes[i]
             if b.kind == 'branch' and isinstance(b.test, (ast.For, ast.AsyncFor)) and b.polarity:
-                hdr = self.node_of(b.test)
-                if hdr is not None and (self.can_reach(n, hdr)):
-                    res.append(b.test)
+                # dominated by the "element bound" branch = inside the loop body (statements after the loop are also
+                # reachable through the "exhausted" branch, hence not dominated); raise/return/break statements of the
+                # body cannot reach the header again but still belong to the loop
+                res.append(b.test)
         return res
 
     def enclosing_loops(self, n: Node) -> List[Node]:
